@@ -285,7 +285,8 @@ class Enumerator:
     def __init__(self, prog, finfo, env0=None, inline=None, writes=None,
                  max_paths=60000, max_depth=3, loop_iters=(0, 1),
                  handler_paths=True, track_attrs=True, quantifiers=True,
-                 comps=False, split_returns=False, unroll=True):
+                 comps=False, split_returns=False, unroll=True,
+                 closures=False):
         self.prog = prog
         self.finfo = finfo
         self.inline = inline
@@ -299,6 +300,7 @@ class Enumerator:
         self.comps = comps
         self.split_returns = split_returns
         self.unroll = unroll
+        self.closures = closures
         self.defs = {}
         self._n = 0
         self._stack = []
@@ -501,7 +503,8 @@ class Enumerator:
                                            line):
                 yield s, (t if isinstance(t, tuple) else (t != neg))
             return
-        if self.inline is not None and len(self._stack) <= self.max_depth:
+        if (self.inline is not None or self.closures) and len(
+                self._stack) <= self.max_depth:
             done = False
             for s, e2, rs in self._inline_in_test(prim, st, line):
                 done = True
@@ -546,7 +549,25 @@ class Enumerator:
         return None
 
     def _inline_target(self, call):
-        if not isinstance(call, ast.Call) or self.inline is None:
+        if not isinstance(call, ast.Call):
+            return None
+        if self.closures and isinstance(call.func, ast.Name) and \
+                call.func.id.startswith('SYM_f'):
+            d = self.defs.get(call.func.id)
+            if isinstance(d, ast.FunctionDef) and not any(
+                    isinstance(x, (ast.Yield, ast.YieldFrom))
+                    for x in ast.walk(d)):
+                cache = self.__dict__.setdefault('_closures', {})
+                fi = cache.get(id(d))
+                if fi is None:
+                    from .model import FunctionInfo
+                    fi = FunctionInfo(self._stack[-1].module, d)
+                    fi.qual = '%s.<locals>.%s' % (self._stack[-1].qual,
+                                                  d.name)
+                    fi.closure = True
+                    cache[id(d)] = fi
+                return None if fi in self._stack else fi
+        if self.inline is None:
             return None
         callee = self.inline(call, self._stack[-1])
         if callee is None or callee in self._stack:
@@ -921,8 +942,8 @@ class Enumerator:
                 v.generators) == 1 and not v.generators[0].is_async:
             yield from self._eval_comp(v, st, handlers, value)
             return
-        if self.inline is not None and len(self._stack) <= self.max_depth \
-                and has_call(v):
+        if (self.inline is not None or self.closures) and len(
+                self._stack) <= self.max_depth and has_call(v):
             hit = self._nested_inlinable(v)
             if hit is not None:
                 node, callee = hit
@@ -941,10 +962,11 @@ class Enumerator:
                 return
             yield st, v, None
             return
-        if isinstance(v, ast.Call) and self.inline is not None and \
+        if isinstance(v, ast.Call) and (self.inline is not None
+                                        or self.closures) and \
                 len(self._stack) <= self.max_depth:
-            callee = self.inline(v, self._stack[-1])
-            if callee is not None and callee not in self._stack:
+            callee = self._inline_target(v)
+            if callee is not None:
                 yield from self._inline(v, callee, st, handlers)
                 return
         s = st.fork()
@@ -1113,6 +1135,11 @@ class Enumerator:
         s0.events[-1].sym = 'inlined:' + callee.qual
         saved_env = s0.env
         cenv = self.const_env(callee)
+        if getattr(callee, 'closure', False):
+            # a nested function reads the variables of the enclosing frame
+            base = dict(saved_env)
+            base.update(cenv)
+            cenv = base
         cenv.update(env)
         s0.env = env = cenv
         self._stack.append(callee)
